@@ -210,6 +210,25 @@ func (s *c20Subscriber) waitEvent(f func(e c20Event) bool, maxWait time.Duration
 	}
 }
 
+// waitLast waits until the most recently received event satisfies f (cheap on long lists: only the tail is looked at).
+func (s *c20Subscriber) waitLast(f func(e c20Event) bool, maxWait time.Duration) bool {
+	deadline := time.Now().Add(maxWait)
+	s.mu.Lock()
+	defer s.mu.Unlock()
+	for {
+		for i := len(s.events) - 1; i >= 0 && i >= len(s.events)-4; i-- {
+			if f(s.events[i]) {
+				return true
+			}
+		}
+		if s.err != nil || time.Now().After(deadline) {
+			return false
+		}
+		go func() { time.Sleep(5 * time.Millisecond); s.cond.Broadcast() }()
+		s.cond.Wait()
+	}
+}
+
 func (s *c20Subscriber) has(f func(e c20Event) bool) bool {
 	s.mu.Lock()
 	defer s.mu.Unlock()
@@ -614,6 +633,18 @@ func TestVerifC20(t *testing.T) {
 				}
 			}
 			rep.Extra[fmt.Sprintf("filler_bytes_published:subscribers=%d", nSubs)] = fill
+			// the kernel's buffers are full now; 3000 small events more fill whatever queue the daemon itself keeps for
+			// the stalled subscriber (16 entries today; the scenario should not depend on that number), the reading
+			// subscribers being waited for after each one (their queues have the same length)
+			for k := 0; k < 3000; k++ {
+				name := fmt.Sprintf("tail-%d-%d", nSubs, k)
+				verifPublishSentinel(name)
+				for _, s := range subs {
+					if s.reads {
+						s.waitLast(func(e c20Event) bool { return e.AuthType == "verif-sentinel" && e.Username == name }, 2*time.Second)
+					}
+				}
+			}
 		}
 		type burstRes struct {
 			ok      int
@@ -728,6 +759,13 @@ func TestVerifC20(t *testing.T) {
 				continue
 			}
 			if !caughtUp {
+				// silent because the daemon writes nothing to it any more, or because TCP has not restarted the flow
+				// yet (zero-window probes back off)?  The kernel knows: bytes still queued on the daemon's side of this
+				// connection mean the latter, and then nothing is judged.
+				if q, found := c20PeerSendQueue(s.raw); !found || q > 0 {
+					rep.Inconc("the stalled subscriber received nothing for 30 s after reading again while %d bytes were still queued towards it (found=%v, subscribers=%d): recovery not judged", q, found, nSubs)
+					continue
+				}
 				rep.Count("stalled_subscriber_went_silent", 1)
 			}
 			got := 0
@@ -805,4 +843,37 @@ func evTypes(evs []c20Event) []string {
 		o = append(o, e.Type)
 	}
 	return o
+}
+
+// c20PeerSendQueue: the send-queue length (bytes written by the peer process and not yet acknowledged by us) of the
+// other end of a loopback TCP connection, from /proc/net/tcp{,6}.
+func c20PeerSendQueue(c net.Conn) (int64, bool) {
+	la, ok1 := c.LocalAddr().(*net.TCPAddr)
+	ra, ok2 := c.RemoteAddr().(*net.TCPAddr)
+	if !ok1 || !ok2 {
+		return 0, false
+	}
+	for _, f := range []string{"/proc/net/tcp", "/proc/net/tcp6"} {
+		b, err := os.ReadFile(f)
+		if err != nil {
+			continue
+		}
+		for _, line := range strings.Split(string(b), "\n")[1:] {
+			fs := strings.Fields(line)
+			if len(fs) < 5 {
+				continue
+			}
+			lp, rp := fs[1][strings.LastIndex(fs[1], ":")+1:], fs[2][strings.LastIndex(fs[2], ":")+1:]
+			var lport, rport int64
+			fmt.Sscanf(lp, "%X", &lport)
+			fmt.Sscanf(rp, "%X", &rport)
+			// the peer's socket: its local port is our remote port and vice versa
+			if int(lport) == ra.Port && int(rport) == la.Port {
+				var tx, rx int64
+				fmt.Sscanf(fs[4], "%X:%X", &tx, &rx)
+				return tx, true
+			}
+		}
+	}
+	return 0, false
 }
